@@ -3,8 +3,8 @@
 # Injects the bounded harness into the package with go test -overlay; nothing is written to /repo.
 set -e
 export GOFLAGS=-mod=mod GOPROXY=off GOSUMDB=off GOTOOLCHAIN=local
-pkg="$1"; test="$2"; name="$3"
+pkg="$1"; test="$2"; name="$3"; REPO="${VERIF_REPO:-/repo}"
 tmp=$(mktemp -d); trap 'rm -rf "$tmp"' EXIT
 cp "$test" "$tmp/zz_bounded_test.go"
-printf '{"Replace":{"/repo/%s/zz_bounded_test.go":"%s/zz_bounded_test.go"}}' "$pkg" "$tmp" > "$tmp/ov.json"
-cd /repo && go test -overlay "$tmp/ov.json" -vet=off -v -count=1 -timeout ${VERIF_BOUND_TIMEOUT:-600s} -run "^$name\$" "./$pkg" 2>&1 | grep -E "^BOUNDED-|^(ok|FAIL|panic)" || true
+printf '{"Replace":{"%s/%s/zz_bounded_test.go":"%s/zz_bounded_test.go"}}' "$REPO" "$pkg" "$tmp" > "$tmp/ov.json"
+cd "$REPO" && go test -overlay "$tmp/ov.json" -vet=off -v -count=1 -timeout ${VERIF_BOUND_TIMEOUT:-600s} -run "^$name\$" "./$pkg" 2>&1 | grep -E "^BOUNDED-|^(ok|FAIL|panic)" || true
